@@ -4,6 +4,7 @@
 def run(ctx):
     fams = ["OO", "OI", "IO"] if ctx.tier == "quick" else ["OO", "OI", "IO", "OL", "LO", "OU", "OQ", "UO", "QO"]
     res = ctx.cvc(fams, ["T-REF"])
+    ctx.cvc(["II", "OO"] if ctx.tier == "quick" else ["II", "OO", "LF", "fs", "QQ"], ["M-IDX"])
     from cvc import tref
     ctx.notes.append("functions NOT under the T-REF contract (slot-level ownership, bounded only): " + ", ".join(tref.OUTSIDE))
     ctx.standin("refcount_rt", families=("OO", "OI", "IO") if ctx.tier == "quick" else ("OO", "OI", "IO", "OL", "LO"))
@@ -12,7 +13,9 @@ def run(ctx):
         "the %d listed as outside the contract: every reference an activation acquires (new-reference API results, "
         "Py_INCREF of locals, results of BTrees functions) is released, returned, stored into the container / an "
         "out-parameter or stolen exactly once on every path, and nothing it does not own is released. Ownership of "
-        "the references held by container slots across memmove, and freedom from out-of-bounds access, are NOT proved "
+        "the references held by container slots across memmove, and freedom from out-of-bounds access in general, are NOT proved "
         "(needs separation logic, DESIGN.md section 10): bounded stand-in refcount_rt (per-call refcount equation on "
-        "every tracked key/value over histories incl. error paths, set algebra, merges, pickling, eviction)."
+        "every tracked key/value over histories incl. error paths, set algebra, merges, pickling, eviction). "
+        "M-IDX (see C15) is run here too: the lazy sequences and iterators read a leaf only inside its CURRENT length "
+        "(slots beyond it hold released references), for all cursor states."
         % (", ".join(fams), len(tref.OUTSIDE)))
